@@ -82,10 +82,20 @@ CLAIMS = {
             "bounded by 4^d/2 (the 2^20 fuel covers 4^19/2); PARTIAL for IEEE arithmetic (only flat / equal-point classes); "
             "refuted without a coordinate bound (finding D25: an infinite or overflowing control point never becomes flat - "
             "public API only, the parser bounds coordinates). Node count = repeats + 2 <= 9001; NonZeroU32::new_unchecked "
-            "only sees values >= 2. OPEN: encoder totality / UTF-8 validity as a theorem (covered by the enc correspondence "
-            "and the oracle), memory safety of the unsafe blocks (outside the model). Tie to the code: all nine decoders on "
+            "only sees values >= 2. (4) re-encoding: every decoded map has sorted control points and sliders with "
+            "0 <= repeats < 9000, non-empty control points and an absent or positive length (C01_decoded_shape); the "
+            "encoder can panic or run out of fuel ONLY inside the two SliderEventsIter collects "
+            "(C01_encode_fails_only_in_slider_events); no OutOfFuel on any decoded map above an explicit fuel bound "
+            "(tick distance >= 2^-25 or +inf, effective length <= 100000: C01_encode_never_out_of_fuel); the output is "
+            "valid UTF-8 and decodes back to itself (C01_encode_output_is_utf8[_bytes], under the Display-yields-String "
+            "oracle hypothesis); an Err requires a failing write or flush for every chunking "
+            "(C01_encode_err_only_from_writer). PARTIAL: C01_encode_never_panics_partial excludes the decidable class "
+            "neg_dist_class (osu!/catch slider with negative curve distance = the D18 clamp panic); it is proved empty "
+            "outside osu!-mode Catmull sliders and when the Catmull surplus is outweighed by one segment; the residue needs "
+            "an f32 rounding analysis (none found in 192M random + exhaustive small grids, probes_C01_negdist/). OPEN: "
+            "memory safety of the unsafe blocks (outside the model). Tie to the code: all nine decoders on "
             "noise, grammar files, mutations, truncations at every length, BOM/UTF-16 variants, large and ill-conditioned "
-            "sliders, byte-level composed model correspondence, in release, debug (overflow checks) and tracing-feature "
+            "sliders, clusters of objects within 8 ulps in time, byte-level composed model correspondence, in release, debug (overflow checks) and tracing-feature "
             "builds with a formatting subscriber; 15 s watchdog per input.",
             "§6 C01"),
     "C10": ("Unbounded theorems (coq/Properties/C10.v, axiom-free): UTF-8 / UTF-16LE / UTF-16BE codec round trips for every "
@@ -132,10 +142,16 @@ CLAIMS = {
             "otherwise the last cumulative length IS L (the very same value), sizes agree, first length 0, the path is a "
             "prefix of the natural path plus the adjusted end point, cut index characterised; over the reals the osu!-mode "
             "Catmull simplification keeps kept-length + surplus = full polyline length with a non-negative surplus (T16c, "
-            "on the same loop as the model). NOT proved: exact-arithmetic geometry of the cut/extension (T16b), "
-            "monotonicity under rounding (T16d) - "
-            "these are measured by the oracle (dist == L bitwise with the stated exceptions, cut geometry in f64, lengths "
-            "start at 0 / monotone within 1e-5 / finite). Tie to the code: bit-exact correspondence of Curve::new "
+            "on the same loop as the model). T16d in IEEE arithmetic with seed 0 (every mode but osu!-Catmull): cumulative "
+            "lengths start at +0, are non-decreasing (overflow to +inf included), non-negative, and finite under the "
+            "stated bound (|coord| <= 2^60, <= 2^53 vertices, finite L) for EVERY requested length "
+            "(C16_lengths_nondecreasing[_and_finite], C16_curve_lengths_nondecreasing_partial). T16b in exact arithmetic "
+            "on the model's own formula (adjust_point_g instance): the adjusted end lies on the ray / inside the segment / "
+            "beyond its end, at distance L - lp, and the adjusted polyline has length exactly L "
+            "(C16_adjusted_path_has_length_L); pp = pe excluded (D11 class). NOT proved: monotonicity with a non-zero "
+            "osu!-mode Catmull seed (surplus may round negative), IEEE rounding error of the adjusted end point - measured "
+            "by the oracle (dist == L bitwise with the stated exceptions, cut geometry in f64, lengths start at 0 / monotone "
+            "within 1e-5 / finite; the same request through a SliderPath first read without a length). Tie to the code: bit-exact correspondence of Curve::new "
             "(path and lengths) incl. arcs through real libm on grids and random control-point lists, all modes and length classes.",
             "§6 C16"),
     "C17": ("PARTIAL. Proved (coq/Properties/C17.v): structure for all inputs in IEEE arithmetic - linear segments copy their "
@@ -163,9 +179,14 @@ CLAIMS = {
             "bounds for any comparator, no panic on any computed curve, every position is the origin, a vertex or on the "
             "selected segment, progress 0 is exactly the first vertex under finiteness/positivity; at a vertex's own "
             "cumulative length and at progress 1 (last length strictly largest) the interpolation weight is exactly 1, so "
-            "the position is that vertex up to one rounding; in exact arithmetic vertex hits and the per-segment Lipschitz "
-            "bound / isometry. NOT proved: the Lipschitz bound across segments in IEEE arithmetic, vertex hits reached "
-            "through lengths[i]/dist, progress 1 with a repeated last length - measured by the oracle within rounding slack. Tie "
+            "the position is that vertex up to one rounding; progress 1 with a repeated last length "
+            "(C19_progress_one_repeated_last_length: the search lands on an entry equal to L, weight exactly 1). Whole "
+            "curve in exact arithmetic on the model's own formula (position_at_g instance) with the transcribed std binary "
+            "search proved to meet its contract on every non-decreasing list: progress <= 0 gives the first vertex, >= 1 "
+            "the last, lj/total gives vertex j, and the GLOBAL Lipschitz bound |pos a - pos b| <= |a-b| * total across "
+            "segments (C19_exact_whole_curve; with the real EPSILON guard the bound needs + 2 eps, shown). NOT proved: the "
+            "Lipschitz bound and vertex hits through lengths[i]/dist in IEEE arithmetic - measured by the oracle within "
+            "rounding slack. Tie "
             "to the code: bit-exact position_at / progress_to_dist / idx_of_dist / interpolate_vertices.",
             "§6 C19"),
     "C20": ("Unbounded theorems (coq/Properties/C20.v): the lazy iterator state machine with its reversed tick stack equals "
